@@ -34,6 +34,10 @@ pub enum Call {
     SetReferenceDescriptor(&'static str, &'static str),
     /// parse, render with expr(), parse the rendering again: "same" or what came out (C12's concurrent part)
     RoundTrip(&'static str),
+    /// the one-call entry point execute() with a fresh context
+    Execute(&'static str),
+    /// register a function whose handler itself calls execute() (on a context of its own)
+    RegReentrantFn(&'static str),
 }
 
 pub struct Workload {
@@ -192,6 +196,14 @@ pub fn workloads() -> Vec<Workload> {
             write_set: vec![0],
         },
         Workload {
+            name: "W17-reentrant-handler-in-execute-vs-registrations",
+            about: "execute() of a program whose function handler itself calls execute(), while another thread registers an infix operator and a function: both evaluations and both registrations complete (a lock held across a whole evaluation and wanted by a registration would deadlock here)",
+            pre: vec![Exec("1 + 1"), RegReentrantFn("reent")],
+            threads: vec![vec![Execute("reent(1) == [7, 1]"), Execute("reent() == [7, 0]")], vec![RegInfix("xr", 105, true, "R"), RegFn("other", "O")]],
+            post: vec![Execute("[reent(), 1 xr 2, other()]")],
+            write_set: vec![1, 3],
+        },
+        Workload {
             name: "W9-first-use-register-x2",
             about: "the first engine calls are two registrations (one of a built-in operator) and an evaluation",
             pre: vec![],
@@ -264,8 +276,52 @@ pub fn render_workloads() -> Vec<Workload> {
     ]
 }
 
+pub fn grouping_workloads() -> Vec<Workload> {
+    use Call::*;
+    vec![
+        Workload {
+            name: "G1-grouping-vs-reregistration-of-builtin",
+            about: "(C02) parses whose grouping depends on `*` while another thread re-registers the built-in `*` with the precedence and associativity it already has (another handler): every parse must give the one tree there is, whenever it happens (an operator that is absent, or half-present, for a moment shows as another grouping or a rejection)",
+            pre: vec![Exec("1 + 1")],
+            threads: vec![vec![Parse("a + b * c"), Parse("a * b + c * d")], vec![RegInfix("*", 120, true, "M")]],
+            post: vec![Parse("a + b * c")],
+            write_set: vec![1],
+        },
+        Workload {
+            name: "G2-grouping-vs-reregistration-of-user-operator",
+            about: "(C02) the same with a user word operator between built-in levels, re-registered with the same precedence and associativity",
+            pre: vec![Exec("1 + 1"), RegInfix("xo", 105, true, "O")],
+            threads: vec![vec![Parse("a + b xo c == d"), Parse("a xo b xo c")], vec![RegInfix("xo", 105, true, "N")]],
+            post: vec![Parse("a xo b xo c")],
+            write_set: vec![1],
+        },
+    ]
+}
+
+pub fn accept_workloads() -> Vec<Workload> {
+    use Call::*;
+    vec![
+        Workload {
+            name: "A1-acceptance-vs-reregistration-of-builtin-word-operators",
+            about: "(C05) malformed programs that are only malformed because `in` and `not` are operators, parsed while another thread re-registers those built-ins (same kind, precedence, associativity): each parse must be rejected, and the well-formed neighbour accepted, whenever it happens",
+            pre: vec![Exec("1 + 1")],
+            threads: vec![vec![Parse("1 in"), Parse("(not)"), Parse("1 in [1]")], vec![RegInfix("in", 200, true, "I"), RegPrefix("not", "N")]],
+            post: vec![Parse("1 in"), Parse("(not)")],
+            write_set: vec![0, 1],
+        },
+        Workload {
+            name: "A2-acceptance-vs-reregistration-of-user-word-operators",
+            about: "(C05) the same with a user infix word and a user postfix word",
+            pre: vec![Exec("1 + 1"), RegInfix("within", 105, true, "O"), RegPostfix("pct", "P")],
+            threads: vec![vec![Parse("1 within"), Parse("pct"), Parse("2 pct pct")], vec![RegInfix("within", 105, true, "N"), RegPostfix("pct", "Q")]],
+            post: vec![Parse("1 within"), Parse("pct")],
+            write_set: vec![1, 2],
+        },
+    ]
+}
+
 pub fn find_workload(name: &str) -> Option<Workload> {
-    workloads().into_iter().chain(extra_workloads()).chain(render_workloads()).find(|w| w.name == name)
+    workloads().into_iter().chain(extra_workloads()).chain(render_workloads()).chain(grouping_workloads()).chain(accept_workloads()).find(|w| w.name == name)
 }
 
 fn tagged(name: &'static str, tag: &'static str) -> impl Fn(Vec<Value>) -> Value + Send + Sync + Clone {
@@ -302,6 +358,11 @@ pub fn run_call(c: &Call, ctx: &mut Context) -> String {
                 Ok(_) => Ok(format!("Ok(differs: {:?})", rendered)),
                 Err(e) => Ok(format!("Ok(rendering rejected: {:?} {:?})", rendered, e)),
             }
+        }
+        Call::Execute(text) => expression_engine::execute(text, Context::new()).map(|v| format!("Ok({})", super::vals::show_value(&v))).map_err(|e| format!("Err({:?})", e)),
+        Call::RegReentrantFn(n) => {
+            expression_engine::register_function(n, Arc::new(|a| expression_engine::execute("2 * 3 + 1", Context::new()).map(|v| Value::List(vec![v, Value::from(a.len() as i64)]))));
+            Ok("registered".into())
         }
         Call::Describe(text) => parse_expression(text).map(|t| format!("Ok({:?})", t.describe())).map_err(|e| format!("Err({:?})", e)),
         Call::SetBinaryDescriptor(op, tag) => {
@@ -659,8 +720,23 @@ fn explore(w: &Workload, bound: usize, reduce: bool, jobs: usize, budget: Durati
                         }
                         let stuck = j["stuck"].as_bool() == Some(true);
                         if stuck {
-                            // (the results of a run that was cut off are not judged)
-                            f.push(("machinery:uncontrolled-blocking".into(), case.clone(), "nobody made progress for 8 s and nobody could be scheduled (a primitive the hooks do not wrap?)".into()));
+                            // (the results of a run that was cut off are not judged.) Every thread sits
+                            // in something the hooks do not see and none of them gets out of it:
+                            // if the same schedule ends like that again and again, they are waiting
+                            // for each other
+                            drop(f);
+                            let already = fails.lock().unwrap().iter().any(|x| x.0.starts_with("deadlock:"));
+                            let again = if already {
+                                0
+                            } else {
+                                (0..2).filter(|_| run_child(&["sched".into(), w.name.into(), if reduce { "1".into() } else { "0".into() }, ch.clone()], Duration::from_secs(30)).map(|j2| j2["stuck"].as_bool() == Some(true)).unwrap_or(false)).count()
+                            };
+                            f = fails.lock().unwrap();
+                            if again == 2 {
+                                f.push((format!("deadlock:{}:all-threads-blocked-outside-the-hooks", w.name), case.clone(), "three runs of this schedule out of three ended with every unfinished thread blocked (for 8 s) in a primitive the hooks do not wrap, none of them able to go on".into()));
+                            } else if !already {
+                                f.push(("machinery:uncontrolled-blocking".into(), case.clone(), "nobody made progress for 8 s and nobody could be scheduled (a primitive the hooks do not wrap?), and the same schedule did not end like that again".into()));
+                            }
                         }
                         if stuck {
                         } else if let Some(d) = j["deadlock"].as_str() {
